@@ -264,6 +264,43 @@ def expected_joint(c, r):
     return E.reshape(T * d * n, T * d * n), None
 
 
+def amplification(c, r, sd):
+    """Forward rounding-error bound of the sampling recursion relative to the marginal std:
+    max over (time, coordinate) of  (|G_k| ... |G_{t-1}| |L_t| 1  +  |G_k| ... |offsets / initial mean|) / sd.
+    Singular innovation covariances (zero calibrated output scale, noise-free ODE information) make the
+    backward gains ill-defined (entries ~1e170): the samples are then rounding noise and are not compared."""
+    n, cc, nb = dims(c)
+    T = r["ncond"] + 1
+    rev = r["reverse"]
+    worst = 0.0
+    for a in range(nb):
+        Gs, _Qs = gains_and_Q(r, a)
+        Ls = [np.abs(np.abs(np.array(r["conds"][k][a]["to"]))[:, None] * np.array(r["conds"][k][a]["L"])) for k in range(T - 1)]
+        bs = [np.abs(np.array(r["conds"][k][a]["to"])[:, None] * np.array(r["conds"][k][a]["b"])).max(axis=1) for k in range(T - 1)]
+        L0 = np.abs(np.array(r["marginal"][a]["L"])).sum(axis=1)
+        m0 = np.abs(np.array(r["marginal"][a]["m"])).max(axis=1)
+        sdb = block_view(c, sd, a).min(axis=2)           # (T, n)
+        with np.errstate(all="ignore"):
+            if rev:
+                acc = L0 + m0
+                worst = max(worst, float(np.nanmax(acc / sdb[T - 1])))
+                for k in range(T - 2, -1, -1):
+                    acc = np.abs(Gs[k]) @ acc + Ls[k].sum(axis=1) + bs[k]
+                    worst = max(worst, float(np.nanmax(acc / sdb[k])))
+            else:
+                acc = L0 + m0
+                worst = max(worst, float(np.nanmax(acc / sdb[0])))
+                for k in range(T - 1):
+                    acc = np.abs(Gs[k]) @ acc + Ls[k].sum(axis=1) + bs[k]
+                    worst = max(worst, float(np.nanmax(acc / sdb[k + 1])))
+        if not np.isfinite(worst):
+            return float("inf")
+    return worst
+
+
+AMP_MAX = 1e7        # rounding bound eps * AMP_MAX = 2e-9 relative to std: 2% of RTOL
+
+
 # ------------------------------------------------------------------ main
 def main():
     ck = lib.Check("C13")
@@ -279,6 +316,7 @@ def main():
 
     ck.hist["impl_wall_s"] = {"s": round(_time.time() - _t0, 1), "per_case(build,sample)": [r.get("wall") for r in ires]}
     worst = {"zero": 0.0, "lin": 0.0, "gram": 0.0, "affine": 0.0, "model0": 0.0}
+    ill = set()        # cases whose sampling recursion is numerically ill-defined (values not compared)
     emit = []          # (case index, block, kind of term, term text)
     for i, c in enumerate(cases):
         r = ires[i]
@@ -322,6 +360,16 @@ def main():
         chk = r["checks"]
         if not (chk["same_key_same_sample"] and chk["distinct_keys_differ"] and chk["finite"]):
             ck.report(sig("keys") if c["mode"] == "posterior" else "C13.from_grid", f"key behaviour with real draws: {chk}", replay)
+        S0 = np.array(r["s0"])
+        U = np.array(r["u_mean_flat"])
+        E, iso_parts = expected_joint(c, r)
+        sd = np.sqrt(np.maximum(np.diag(E), 0.0))
+        sd = np.maximum(sd, 1e-7 * max(sd.max(), 1e-300)).reshape(S0.shape)
+        mag = max(1.0, float(np.abs(U).max()))
+        amp = amplification(c, r, sd)
+        ck.hist.setdefault("log10_rounding_amplification", {})
+        key_amp = "inf" if not math.isfinite(amp) else str(int(math.floor(math.log10(max(amp, 1.0)))))
+        ck.hist["log10_rounding_amplification"][key_amp] = ck.hist["log10_rounding_amplification"].get(key_amp, 0) + 1
         # ---------------- shapes (iv)
         bad_shape = None
         if r["s0_treedef"] != r["u_treedef"] or r["s0_leaf_shapes"] != r["u_leaf_shapes"]:
@@ -330,19 +378,16 @@ def main():
             wantl = [e["shape"] + s for s in r["u_leaf_shapes"]]
             if e["leaf_shapes"] != wantl or e["treedef"] != r["u_treedef"]:
                 bad_shape = bad_shape or f"shape={tuple(e['shape'])}: sample leaves {e['leaf_shapes']} vs expected {wantl}"
-            elif e["recursion_maxdiff"] > 1e-9 or not e["all_distinct"]:
+            elif (amp <= AMP_MAX and e["recursion_maxdiff"] > 1e-9) or not e["all_distinct"]:
                 bad_shape = bad_shape or (f"shape={tuple(e['shape'])}: entries are not the shape-() samples of the split keys "
                                           f"(max diff {e['recursion_maxdiff']:.3g}, all distinct: {e['all_distinct']})")
         if bad_shape:
             ck.report(sig("shape"), f"{kind}/{c['tree']}: {bad_shape}", replay)
         # ---------------- zero draws (i)
-        S0 = np.array(r["s0"])
-        U = np.array(r["u_mean_flat"])
-        E, iso_parts = expected_joint(c, r)
-        sd = np.sqrt(np.maximum(np.diag(E), 0.0))
-        sd = np.maximum(sd, 1e-7 * max(sd.max(), 1e-300)).reshape(S0.shape)
-        mag = max(1.0, float(np.abs(U).max()))
-        if not np.allclose(np.array(r["s0_record"]), S0, rtol=1e-12, atol=1e-12 * mag):
+        if amp > AMP_MAX:
+            ill.add(i)
+            continue
+        if not np.allclose(np.array(r["s0_record"]), S0, rtol=1e-9, atol=1e-9 * mag):
             ck.report(sig("zero-draws"), "sample with zero draws differs between the eager record run and the jitted table run", replay)
         err = np.abs(S0 - U)
         tol = ZTOL * (np.abs(U) + sd) + 1e-13 * mag
@@ -519,6 +564,9 @@ def main():
                     ck.report(sig("linear-map"), f"{kind} block {a}: sample(z)[time {int(idx[0])}, coeff {int(idx[1])}, col {int(idx[2])}] = {float(got[idx])!r} for a prescribed draw vector, model {float(mf[idx])!r}", replay)
                 else:
                     worst["lin"] = max(worst["lin"], float((e_ / t_).max()) * RTOL)
+    ck.hist["ill_conditioned_values_not_compared"] = {"n": len(ill)}
+    if len(ill) > max(2, len(cases) // 4):
+        ck.report("C13.coverage", f"{len(ill)} of {len(cases)} cases have a numerically ill-defined sampling recursion (values not compared)", {"cases": sorted(ill)}, nofail=True)
     ck.hist["model_terms"] = {"n": len(emit), "skipped(timeout)": skipped, "unit_columns_compared": compared_units}
     ck.hist["worst_discrepancy(relative to |value|+std)"] = {k: f"{v:.3g}" for k, v in worst.items()}
     if skipped > max(2, len(emit) // 4):
@@ -532,7 +580,7 @@ def main():
               "(b) jitted table run returning prescribed draws selected by key -> sample(0), sample(e_j) for EVERY scalar draw (M), sample(z) for 2 random z; "
               "compared: sample(0) vs solution.u.mean (1e-8 rel. to |mean|+std, flat and pytree form), sample(0)/M columns/sample(z) vs Model/Sample.v evaluated on the exact "
               "raw posterior (bigQ instance, Qc reference on 2 terms; 1e-7 rel. to |value|+std), affinity, M M^T vs joint covariance assembled from marginal covariances and plain gains (1e-5 sd_i sd_j), "
-              "shapes (), (2,), (2,3) = vmap recursion over split keys, key discipline (no key consumed twice); non-trivial = non-unit to_observed or to_latent (fixed-point posteriors have unit to_observed by construction) and non-zero offsets; distinct by full input")
+              "shapes (), (2,), (2,3) = vmap recursion over split keys, key discipline (no key consumed twice); cases whose forward rounding bound of the recursion exceeds 1e7 x std (singular innovations: zero calibrated scale) are only checked for shapes/keys; non-trivial = non-unit to_observed or to_latent (fixed-point posteriors have unit to_observed by construction) and non-zero offsets; distinct by full input")
 
 
 if __name__ == "__main__":
